@@ -8,6 +8,32 @@ type PropertyDef struct {
 
 // Properties is the registry of E2 checks.
 var Properties = map[string]PropertyDef{
+	"C16": {Cases: C16Cases, Config: func(tier string) Config {
+		c := Config{
+			Functions: []string{"elgamal.NewSecretKey/NewPublicKey", "elgamal.PublicKey.EncryptWithNonce/Representative/IdentityNoise/ReRandomise/Shift/CiphertextOp/CiphertextOpInv/CiphertextScalarOp/PlaintextOp/NonceOp", "elgamal.SecretKey.Decrypt/EncryptWithNonce/IdentityNoise/ReRandomise", "encryption/internal/gift.Encrypt/ReRandomise/Shift", "constructions.FiniteDirectPowerModule"},
+			Bounds:  map[string]any{"sk, plaintexts, nonces, scalar": "symbolic over GF(q)/the group", "operation sequences": "all sequences over {op,inv,scalar,shift,rerand} of length ≤2 (quick) / ≤4 (thorough)"},
+			Assumes: []string{"group modelled as (Z/q,+) by isomorphism; sk ∉ {0,1} and nonces ≠ 0 as the constructors require"},
+			Outside: []string{"Paillier in all flavours, znstar, modular, crt (big-integer arithmetic on saferith: DESIGN §6 barrier 1)"},
+		}
+		if tier == "thorough" {
+			c.Moduli = []string{"secp256k1", "ed25519", "p256"}
+			c.Cross = "cvc5"
+		}
+		return c
+	}},
+	"C18": {Cases: C18Cases, Config: func(tier string) Config {
+		c := Config{
+			Functions: []string{"pedersencom.NewCommitmentKeyUnchecked", "pedersencom.CommitmentKey.CommitWithWitness/Open/CommitmentOp/CommitmentScalarOp/CommitmentOpInv/ReRandomise/Shift/MessageOp/WitnessOp", "pedersencom.NewTrapdoorKey", "TrapdoorKey.CommitWithWitness/Equivocate/Export", "commitments/internal.GenericOpen", "indcpacom.NewCommitmentKey", "indcpacom.CommitmentKey.CommitWithWitness/Open"},
+			Bounds:  map[string]any{"message, witness, second generator h, alternative opening, offsets δ": "symbolic", "trapdoor λ": "4 concrete values (Equivocate inverts it)"},
+			Assumes: []string{"h ∉ {identity, g} (what NewCommitmentKeyUnchecked enforces)", "'changed key ⇒ reject' is claimed for witness ≠ 0 (with witness 0 the commitment does not depend on h)"},
+			Outside: []string{"intcom (RSA-group integers)", "hash commitments are checked by the E1 part of C18", "key extraction from transcripts (hash, class B)"},
+		}
+		if tier == "thorough" {
+			c.Moduli = []string{"secp256k1", "ed25519", "bls12381"}
+			c.Cross = "cvc5"
+		}
+		return c
+	}},
 	"C20": {Cases: C20Cases, Config: func(tier string) Config {
 		c := Config{
 			Functions: []string{"mat.SolveRight", "mat.SolveLeft", "mat.solveAugmented", "mat.SquareMatrix.TryInv/Determinant/Mul/Transpose/IsIdentity", "mat.Lift", "mat.LeftAction", "mat.RightAction", "polynomials.Polynomial.Eval/Add/Mul/Derivative", "polynomials.LiftPolynomial", "ModuleValuedPolynomial.Eval",
